@@ -34,6 +34,7 @@ func init() {
 	sim.RegisterKind("pipe-close", "C16")
 	sim.RegisterKind("server-wedged", "C16", "C18", "C06")
 	sim.RegisterKind("alloc-expiry-late", "C06", "C16")
+	sim.RegisterKind("ledger-open-after-death", "C15", "C06", "C16")
 	sim.RegisterKind("client-tcp", "C16", "C13")
 	sim.RegisterKind("conn-open-after-death", "C15", "C16")
 }
@@ -673,7 +674,16 @@ func runSlowConnect(t *testing.T, rng *rand.Rand, rec *sim.Rec, tier string, cas
 	}
 	uc, _ := w.NewUDPClient("c1", net.IPv4(10, 1, 0, 1).To4(), 5000, 0, "bob")
 	life := uint32(3 + rng.Intn(12))
-	if r := m.Allocate(tc, sim.AllocOpts{Transport: 6}); r == nil || r.Class != wire.ClassSuccess {
+	// in half of the cases the Connect's own allocation reaches its lifetime while the dial is still
+	// under way (the control connection is busy with the Connect, so it cannot be given up by
+	// request): whatever the dial produces afterwards belongs to nobody and must be closed, at the
+	// latest when the 30 s ConnectionBind deadline of that connection passes
+	ownerDies := rng.Intn(2) == 0
+	tcOpts := sim.AllocOpts{Transport: 6}
+	if ownerDies {
+		tcOpts.Lifetime = sim.U32(uint32(6 + rng.Intn(8)))
+	}
+	if r := m.Allocate(tc, tcOpts); r == nil || r.Class != wire.ClassSuccess {
 		rec.Inconclusive("tcp allocate failed")
 
 		return
@@ -702,16 +712,33 @@ func runSlowConnect(t *testing.T, rng *rand.Rand, rec *sim.Rec, tier string, cas
 	st.PeerSend(up, mustUDPAddr(m, uc), []byte("after-expiry-during-slow-connect"))
 	st.End()
 	m.CrossCheck()
-	if n := w.Srv.AllocationCount(); n != 1 {
-		rec.Violate("alloc-expiry-late", "slow-connect", "AllocationCount=%d one second after a %d s allocation should have ended (a Connect of another client is dialling a slow peer)", n, life)
+	want, unsure := 0, false
+	for _, a := range m.Allocs {
+		switch a.State() {
+		case sim.Live:
+			want++
+		case sim.Maybe:
+			unsure = true
+		}
+	}
+	if n := w.Srv.AllocationCount(); !unsure && n != want {
+		rec.Violate("alloc-expiry-late", "slow-connect", "AllocationCount=%d (want %d) one second after a %d s allocation should have ended (a Connect of another client is dialling a slow peer)", n, want, life)
 	}
 	w.Gen.SetDelayKind("conn", 0)
 	w.Sleep(25 * time.Second)
 	tc.Collect()
-	if r := tc.TakeResponse(tid); r == nil {
+	if r := tc.TakeResponse(tid); r == nil && !ownerDies {
 		rec.Violate("server-wedged", "slow-connect", "the Connect whose dial took 20 s was never answered")
 	} else {
-		rec.FP("slow-connect/answered/%d", codeOfMsg(r))
+		rec.FP("slow-connect/answered/%d/owner-gone=%v", codeOfMsg(r), ownerDies)
+	}
+	if ownerDies {
+		w.Sleep(35 * time.Second)
+		for _, r := range w.Gen.Resources() {
+			if r.Kind == "conn" && r.Open() {
+				rec.Violate("ledger-open-after-death", "conn", "the peer connection dialled for a Connect (%s) is still open 60 s after its allocation was deleted during the dial", r.Addr)
+			}
+		}
 	}
 	m.Audit(nil)
 	rec.FP("slow-connect/life=%d", life/5)
